@@ -35,14 +35,13 @@ def expected_class(status):
 
 
 import re
-# `ident < ... > (` on one statement is taken for a generic call by the parser (C02 finding lt_gt_paren)
-LT_GT_PAREN = re.compile(r"[A-Za-z_]\w*(\[[^\]]*\])*\s*<[^;{}]*>\s*\(")
+# `a < b > (c)` with an identifier (or type-like text) between the angle brackets is, by the grammar, a generic
+# call `a<b>(c)` (the same ambiguity as in C++); generated programs that contain it are not compared
+LT_GT_PAREN = re.compile(r"[A-Za-z_]\w*\s*<\s*[A-Za-z_][\w\s,\*\[\]<>]*>\s*\(")
 
 
 def source_ok(src, gates):
-    if "lt_gt_paren" in gates and LT_GT_PAREN.search(src):
-        return False
-    return True
+    return not LT_GT_PAREN.search(src)
 
 
 def run_suite(exe, sexps, timeout=10, gates=()):
